@@ -165,7 +165,11 @@ func (p *StreamPool) newConnection(k key, s Stream, ts time.Time) (c *connection
 	}
 	index := len(p.free) - 1
 	c, p.free = p.free[index], p.free[:index]
+	// An assembler that looked the object up before it was removed may be
+	// about to check it: reset it under its own lock.
+	c.mu.Lock()
 	c.reset(k, s, ts)
+	c.mu.Unlock()
 	return c, &c.c2s, &c.s2c
 }
 
